@@ -61,6 +61,8 @@ type rcase struct {
 	Hook json.RawMessage `json:"hook,omitempty"`
 	// kind tiny (tiny.go): the small documents of one schema that show the violation
 	Tiny *conc.TinyProblem `json:"tiny,omitempty"`
+	// kind kid (kid.go): distinct private keys under one key id
+	Kid *kidCase `json:"kid_case,omitempty"`
 }
 
 func env() []string {
@@ -133,6 +135,9 @@ func Run(c *core.Ctx) int {
 	hk := startHookRace(c, race) // (7) in the background while (5), (6) and (1) run
 	hookInProcess(c, inputs, outputs)
 	bulkTraces(c, gobl, inputs, outputs)
+	t0 = time.Now()
+	sharedKeyIDs(c, gobl, outputs)
+	c.Note("distinct private keys under one key id (library, cli.Sign, bulk in process and over HTTP): %.1fs", time.Since(t0).Seconds())
 	hk.finish(c)
 
 	return c.Finish("one evaluation = one document pipeline compared sequential vs concurrent, one registry snapshot comparison, one race-detector run, one bulk response stream (POST /bulk or in-process) judged by the Lean acceptor, or one uncancelled operation compared with its sequential result while others are cancelled; non-trivial = document whose pipeline reaches validation / stream with >= 2 requests answered out of order or with an error tail",
@@ -1157,6 +1162,10 @@ func replay(c *core.Ctx, rc rcase, gobl, race string, before *conc.Snapshot) {
 		return
 	}
 	switch rc.Kind {
+	case "kid":
+		if rc.Kid != nil {
+			runKid(c, *rc.Kid, gobl, nil)
+		}
 	case "tiny":
 		replayTiny(c, rc)
 	case "equiv":
